@@ -117,7 +117,9 @@ fn run(c: &mut Case) {
     for cut in cuts {
         let (exp_items, opt_ends, exp_end, class, info) = expected(&inp, cut);
         let cap = *c.rng.pick(&[None, None, Some(16usize), Some(64), Some(0), Some(1), Some(15), Some(17)]);
-        let cfg = RCfg { allow: 0, buffered: vec![], capacity: cap, max_size: MaxSz::Default, eof_end: true };
+        // the declared sizes are honest here, so the limit may be anything that admits them: untouched, removed, generous
+        let max_size = *c.rng.pick(&[MaxSz::Default, MaxSz::Default, MaxSz::Set(None), MaxSz::Set(Some(1 << 26))]);
+        let cfg = RCfg { allow: 0, buffered: vec![], capacity: cap, max_size, eof_end: true };
         let mut src = ScriptedRead::new(inp.bytes[..cut].to_vec()).with_poison(*c.rng.pick(&POISONS));
         let scale = 1 + cut / 300;
         match c.rng.below(3) {
